@@ -458,8 +458,8 @@ class TracksBuilder(ABC):
 
         # Validate segmentation matches graph (only if position is loaded)
         # If position is not in graph, it will be computed from segmentation
-        sample_node = next(iter(graph.nodes()))
-        has_position = "pos" in graph.nodes[sample_node]
+        sample_node = next(iter(graph.nodes()), None)
+        has_position = sample_node is not None and "pos" in graph.nodes[sample_node]
         if has_position:
             from funtracks.import_export._validation import validate_graph_seg_match
 
